@@ -243,9 +243,12 @@ unsafe impl DynamicBundle for RecordedEntity<'_> {
     unsafe fn put(mut self, mut f: impl FnMut(*mut u8, TypeInfo)) {
         // Zero out the components slice so `drop` won't double-free
         let components = mem::replace(&mut self.components, 0..0);
-        for info in &self.cmd.components[components] {
+        for info in &mut self.cmd.components[components] {
             let ptr = self.cmd.storage.as_ptr().add(info.offset);
-            f(ptr, info.ty);
+            // Ensure the buffer won't drop the moved-out component if it is unwound or cleared
+            // before `run_on` has discarded its component list
+            let ty = mem::replace(&mut info.ty, TypeInfo::of::<()>());
+            f(ptr, ty);
         }
     }
 }
@@ -255,8 +258,10 @@ impl Drop for RecordedEntity<'_> {
         // If `put` was never called, we still need to drop this entity's components and discard
         // their info.
         unsafe {
-            for info in &self.cmd.components[self.components.clone()] {
-                info.ty.drop(self.cmd.storage.as_ptr().add(info.offset));
+            for info in &mut self.cmd.components[self.components.clone()] {
+                // As in `put`, ensure the buffer won't drop this component again
+                let ty = mem::replace(&mut info.ty, TypeInfo::of::<()>());
+                ty.drop(self.cmd.storage.as_ptr().add(info.offset));
             }
         }
     }
